@@ -293,6 +293,63 @@ def _preset_norm(pat: str) -> Tuple[str, str, str]:
     return (start, lit, end)
 
 
+def _patterns_of(d) -> List[str]:
+    """The search patterns of an asset definition: a sequence of pattern strings, or one compiled pattern (its text)."""
+    from ..engine import RegexVal
+    out: List[str] = []
+    for k, v in d.fields:
+        if k in ("extensions", "match_by_extension"):
+            continue
+        if isinstance(v, RegexVal):
+            if v.flags:
+                raise AnalysisError(f"asset pattern {v!r} is compiled with flags: not compared")
+            out.append(v.pattern)
+        elif isinstance(v, (list, tuple)) and all(isinstance(x, str) for x in v):
+            out.extend(v)
+        elif isinstance(v, (list, tuple)) and all(isinstance(x, RegexVal) for x in v):
+            out.extend(x.pattern for x in v)
+        elif v is None:
+            continue
+        else:
+            raise AnalysisError(f"asset definition field {k} = {v!r} is not a pattern / a sequence of patterns")
+    return out
+
+
+def _alternatives(pat: str):
+    """A search pattern as the set of anchored literals it stands for: top-level '|' and groups of alternatives are multiplied out
+    ('(banner|bn)$' is {banner$, bn$}); anything but literals, anchors, groups and alternation is not compared."""
+    import re._parser as sre
+    import re._constants as C
+
+    def seqs(items):
+        # list of (start, literal, end) alternatives for a sequence of parsed items
+        acc = [("", "", "")]
+        for op, arg in items:
+            if op is C.LITERAL:
+                if any(e for _, _, e in acc):
+                    raise AnalysisError(f"asset preset {pat!r}: text after an end anchor")
+                acc = [(s_, l + chr(arg), e) for s_, l, e in acc]
+            elif op is C.AT and arg in (C.AT_BEGINNING, C.AT_BEGINNING_STRING):
+                if any(l for _, l, _ in acc):
+                    raise AnalysisError(f"asset preset {pat!r}: start anchor after text")
+                acc = [("^", l, e) for _, l, e in acc]
+            elif op is C.AT and arg in (C.AT_END, C.AT_END_STRING):
+                acc = [(s_, l, "$") for s_, l, _ in acc]
+            elif op is C.SUBPATTERN:
+                sub = seqs(list(arg[3]))
+                acc = [(s1 or s2, l1 + l2, e1 or e2) for s1, l1, e1 in acc for s2, l2, e2 in sub if not (e1 and (l2 or s2)) and not (s2 and l1)]
+            elif op is C.BRANCH:
+                alts = []
+                for br in arg[1]:
+                    alts.extend(seqs(list(br)))
+                acc = [(s1 or s2, l1 + l2, e1 or e2) for s1, l1, e1 in acc for s2, l2, e2 in alts if not (e1 and (l2 or s2)) and not (s2 and l1)]
+            else:
+                raise AnalysisError(f"asset preset {pat!r} is not made of literals, anchors, groups and alternation (operator {op})")
+        return acc
+
+    return set(seqs(list(sre.parse(pat))))
+
+
 def asset_tables(ctx: Ctx) -> None:
     p = ctx.p
     defs = p.const("simfile.assets", "ASSET_DEFINITIONS")
@@ -304,9 +361,10 @@ def asset_tables(ctx: Ctx) -> None:
         if not isinstance(d, RecordVal):
             ctx.bad("R-TABLE", ("simfile.assets", ""), f"ASSET_DEFINITIONS[{key}]", "missing")
             continue
-        got = {_preset_norm(x) for x in d.get("presets")}
+        pats = _patterns_of(d)
+        got = {x for pat in pats for x in _alternatives(pat)}
         ctx.expect("R-TABLE", ("simfile.assets", ""), f"patterns of {key} == documented patterns", got == spec and not d.get("match_by_extension"), str(sorted(got)), f"{key} presets normalise to {sorted(got)}; documented {sorted(spec)}")
-        ctx.expect("R-TABLE", ("simfile.assets", ""), f"{key} presets are lower-case (the stem is lower-cased before matching)", all(_preset_norm(x)[1] == _preset_norm(x)[1].lower() for x in d.get("presets")), "", "")
+        ctx.expect("R-TABLE", ("simfile.assets", ""), f"{key} presets are lower-case (the stem is lower-cased before matching)", all(x[1] == x[1].lower() for x in got), "", "")
     m = defs.get("MUSIC")
     okm = isinstance(m, RecordVal) and m.get("match_by_extension") is True and tuple(m.get("extensions")) == audio and not m.get("presets")
     ctx.expect("R-TABLE", ("simfile.assets", ""), "MUSIC matches by audio extension only", okm, "", str(m))
@@ -319,8 +377,25 @@ def asset_tables(ctx: Ctx) -> None:
     sums = tsums(ctx, f, bool_returns=True)
     loops = {(ast.unparse(e.target), e.line) for s_ in sums for e in s_.effects if e.kind == "for" and ast.unparse(e.value) == f"{sn}.presets"}
     allloops = {e.line for s_ in sums for e in s_.effects if e.kind == "for"}
-    ctx.expect("R-TABLE", f, "every preset of the definition is tried", len(loops) == 1 and len(allloops) == 1, str(sorted(loops)), f"loops over the presets: {sorted(loops)} of {len(allloops)} loop(s)", node=f.node)
-    if len(loops) == 1 and len(allloops) == 1:
+    single = None
+    if not allloops:
+        # one compiled pattern searched directly: self.<field>.search(<stem>.lower())
+        keys_ = {k for s_ in sums for k in s_.plain_assign()}
+        cands_ = sorted(k for k in keys_ if ".search(" in k and k.startswith(f"{sn}."))
+        if len(cands_) == 1 and cands_[0].endswith(f".search(os.path.splitext({path})[0].lower())"):
+            single = cands_[0]
+    if single is not None:
+        B, X = f"{sn}.match_by_extension", f"extensions.match({path}, *{sn}.extensions)"
+        fld = single[len(sn) + 1:].split(".search(")[0]
+        decs = [Dec(dict(s_.plain_assign()), terminal_and_exit(s_), s_) for s_ in sums]
+        ctx.ok("R-TABLE", f, "the definition's (single, compiled) pattern is searched in the lower-cased file stem", single, node=f.node)
+        tjudge(ctx, "R-TABLE", f, "a preset hit matches; otherwise the extension counts only when match_by_extension is set (extensions.match(path, *self.extensions))", decs, [single, B, X],
+               lambda a: "return True" if (a[single] or (a[B] and a[X])) else "return False", dont_care=[f"{sn}.{fld}"],
+               equiv={f"{X} is None": (X, False), f"bool({X})": (X, True)},
+               feasible=lambda full: not (full.get(ckey(single)) and full.get(ckey(f"{sn}.{fld}")) is False))  # an absent pattern is never searched
+    else:
+        ctx.expect("R-TABLE", f, "every preset of the definition is tried", len(loops) == 1 and len(allloops) == 1, str(sorted(loops)), f"loops over the presets: {sorted(loops)} of {len(allloops)} loop(s)", node=f.node)
+    if single is None and len(loops) == 1 and len(allloops) == 1:
         pv, line = next(iter(loops))
         HIT = f"re.search({pv}, os.path.splitext({path})[0].lower())"
         B, X = f"{sn}.match_by_extension", f"extensions.match({path}, *{sn}.extensions)"
